@@ -108,10 +108,8 @@ Definition protect_aead (mki_index : Z) : M Z :=
   ret (u64 (enc_start + lenZ o + s_mki_size st)).
 
 (* ======================================================================= *)
-(* srtp_unprotect with a GCM key.  The pre phase = everything up to and including the GCM
-   verification, EXCEPT that the C code charges the key-usage budget before it verifies
-   (recorded in upre-independent form: the charge is part of the pre phase here, which is what
-   property C13 is about). *)
+(* srtp_unprotect with a GCM key: nothing of the session is written before gcm_open has verified
+   the tag (property C13). *)
 Definition unprotect_aead : M Z :=
   b <- get_b ;;
   let len := b_len b in
@@ -156,15 +154,16 @@ Definition unprotect_aead : M Z :=
   (if enc_len <? tag_len then exit_with st_cipher_fail else ret tt) ;;;
   (if b_cap b <? u64 (len - s_mki_size st - tag_len) then exit_with st_buffer_small else ret tt) ;;;
   (if b_alias b then ret tt else (h <- rd_src 0 enc_start ;; wr_dst 0 h)) ;;;
-  (* key usage *)
-  charge_key r0 ki ;;;
-  st <- get_stream r0 ;;
   (* srtp_cryptex_unprotect: only the in-place shuffle is left (CSRCs out of place were refused) *)
   (if inplace then cryptex_adjust pkt else ret tt) ;;;
   aad <- rd_src 0 enc_start ;;
   d <- rd_src enc_start enc_len ;;
   let '(s, o) := gcm_open (k_rtp_c k) tag_len iv aad d enc_len in
   (if negb (s =? st_ok) then exit_with s else wr_dst enc_start o) ;;;
+  (* key usage: charged once the packet has authenticated (after the fix "GCM unprotect charges the key budget
+     only for authentic packets"; before it the charge preceded the verification) *)
+  charge_key r0 ki ;;;
+  st <- get_stream r0 ;;
   (* RFC 6904 on the output *)
   (match k_xtn_c k with
    | Some xk => if hdr_x pkt =? 1 then process_xtn st pkt (cipher_start xk (xtn_iv ssrc est)) else ret tt
